@@ -89,7 +89,12 @@ impl<T> IpMatcher<T> {
         if let Some(remote_addr) = request.remote_addr.as_ref() {
             for (ip_cidr, matcher) in &self.matchers {
                 if ip_cidr.match_ip(remote_addr) {
-                    routes.extend(matcher.match_request(request));
+                    // A route listing several ranges lives in several buckets, report it once
+                    for route in matcher.match_request(request) {
+                        if !routes.iter().any(|r: &Arc<Route<T>>| r.id() == route.id()) {
+                            routes.push(route);
+                        }
+                    }
                 }
             }
         }
